@@ -82,13 +82,17 @@ def statics_scan(ck):
     for line in open(path, encoding='utf-8', errors='replace'):
         if line.startswith(('fn ', 'const ', 'static ')):
             cur = line.strip()[:160]
-            if line.startswith('static ') and '__CALLSITE' not in line:
-                bad.append((cur, 'static item'))
+            # immutable tables are harmless; shared *mutable* state is what breaks purity
+            if line.startswith('static ') and '__CALLSITE' not in line and (
+                    line.startswith('static mut') or re.search(r'Mutex|RwLock|Once|Lazy|Cell|Atomic|Condvar|Barrier|mpsc|HashMap|HashSet|Vec<', line)):
+                bad.append((cur, 'static item with interior mutability / growable state'))
         if '/*tls*/' in line:
             bad.append((cur, line.strip()[:200]))
         for m in re.finditer(r'\{alloc\d+: &([^}]*)\}', line):
             ty = m.group(1)
-            if not re.match(r"^(DefaultCallsite|tracing::Metadata<'_>)$", ty):
+            if re.match(r"^(DefaultCallsite|tracing::Metadata<'_>)$", ty):
+                continue
+            if re.search(r'Mutex|RwLock|Once|Lazy|Cell|Atomic|Condvar|LocalKey|thread', ty):
                 bad.append((cur, line.strip()[:200]))
     ck.obligations += 1
     ck.samples.append({'form': 'statics / thread-locals referenced by the crate', 'found': len(bad)})
